@@ -271,7 +271,7 @@ Fixpoint erun (s : st) (evs : list ev) : st * list out :=
 
 (* ---- Range (bigbuff.Range and Buffer.Range) as the composite of the operations above ----
    The callback's behaviour is a script: for the i-th value, continue / stop / panic. *)
-Inductive cb := CbTrue | CbFalse | CbPanic.
+Inductive cb := CbTrue | CbFalse | CbPanic | CbPutTrue (v : Z).   (* CbPutTrue: the callback puts v into the buffer, then continues *)
 Inductive range_end := ReNil | ReErr | RePanic | ReFuel.
 
 (* package Range on consumer c; [bounded] selects Buffer.Range's wrapper (stop when Diff <= 0).  A Get that would park
@@ -305,6 +305,17 @@ Fixpoint range_loop (fuel : nat) (bounded : bool) (s : st) (c : nat) (script : l
               | ROk => if more then range_loop fuel' bounded s2 c script' visited' else (s2, visited', ReNil)
               | _ => let '(s3, _) := step s2 (ORollback c) in (s3, visited', ReErr)
               end
+          | CbPutTrue pv :: script' =>
+              (* the callback itself puts a value (it lands while the callback for the current value is running) *)
+              let s1p := fst (step s1 (OPut [pv])) in
+              let more := if bounded
+                          then match snd (step s1p (ODiff c)) with RDiff n true => (0 <? n)%Z | _ => false end
+                          else true in
+              let '(s2, r2) := step s1p (OCommit c) in
+              match r2 with
+              | ROk => if more then range_loop fuel' bounded s2 c script' visited' else (s2, visited', ReNil)
+              | _ => let '(s3, _) := step s2 (ORollback c) in (s3, visited', ReErr)
+              end
           | [] => (* script exhausted: treat as stop *)
               let '(s2, r2) := step s1 (OCommit c) in
               match r2 with
@@ -322,10 +333,10 @@ Definition buffer_range (s : st) (c : nat) (script : list cb) : st * list Z * ra
   | None => (s, [], ReErr)
   | Some _ =>
       match snd (step s (ODiff c)) with
-      | RDiff n true => if (0 <? n)%Z then range_loop (S (length (log s))) true s c script [] else (s, [], ReNil)
+      | RDiff n true => if (0 <? n)%Z then range_loop (S (length (log s) + length script)) true s c script [] else (s, [], ReNil)
       | _ => (s, [], ReNil)
       end
   end.
 
 Definition pkg_range (s : st) (c : nat) (script : list cb) : st * list Z * range_end :=
-  range_loop (S (S (length (log s)))) false s c script [].
+  range_loop (S (S (length (log s) + length script))) false s c script [].
